@@ -147,7 +147,7 @@ func (u *c15Unit) oracle(d *minipg.DB, when string) *finding {
 		expSet[e]++
 	}
 	var kinds []string
-	var lines []string
+	var lines, preStart []string
 	addKind := func(k string) {
 		for _, x := range kinds {
 			if x == k {
@@ -170,7 +170,6 @@ func (u *c15Unit) oracle(d *minipg.DB, when string) *finding {
 		if expSet[s] > 0 {
 			continue
 		}
-		onlyMissingAtStart = false
 		// why is this row not expected?
 		kind := "wrong-row"
 		if hb, err := decodeHex(r["block_hash"]); err == nil {
@@ -188,6 +187,12 @@ func (u *c15Unit) oracle(d *minipg.DB, when string) *finding {
 				}
 			}
 		}
+		if kind == "event-before-start" {
+			// informational only (see c15EventConfigs): never part of a signature
+			preStart = append(preStart, fmt.Sprintf("  %s: %s", kind, s))
+			continue
+		}
+		onlyMissingAtStart = false
 		addKind(kind)
 		lines = append(lines, fmt.Sprintf("  %s: %s", kind, s))
 	}
@@ -200,9 +205,14 @@ func (u *c15Unit) oracle(d *minipg.DB, when string) *finding {
 			}
 		}
 	}
-	if len(kinds) == 0 {
+	if len(kinds) == 0 && len(preStart) == 0 {
 		return nil
 	}
+	if len(kinds) == 0 {
+		kinds = []string{"event-before-start"}
+		onlyMissingAtStart = false
+	}
+	lines = append(lines, preStart...)
 	sort.Strings(kinds)
 	sig := "C15/" + string(t.kind) + "/" + strings.Join(kinds, "+")
 	if t.kind == syncx.Multi && onlyMissingAtStart {
@@ -211,6 +221,13 @@ func (u *c15Unit) oracle(d *minipg.DB, when string) *finding {
 	msg := fmt.Sprintf("%s, %s: sync position %s is the canonical block at height %d (head %s), but table %s differs from the canonical admissible events in [%d, %d]:\n%s",
 		t.kind, when, st, st.Number, t.label[t.chain.Head().ID], t.kind.EventTable(), t.spec.Start, st.Number, strings.Join(lines, "\n"))
 	return &finding{sig: sig, msg: msg}
+}
+
+// preStartOnly reports whether the finding consists only of stored events from
+// before the configured start block. Such events are generated for an
+// informational probe only (see c15EventConfigs), never as a failure.
+func preStartOnly(f *finding) bool {
+	return f != nil && strings.HasSuffix(f.sig, "/event-before-start")
 }
 
 func decodeHex(s string) ([]byte, error) {
@@ -342,7 +359,7 @@ func (u *c15Unit) headByLabel(l string) fakechain.BlockID {
 // judgeGap maps the oracle's finding on a gap-after-earlier-head transition to
 // the signature of that class.
 func judgeGap(f *finding) *finding {
-	if f == nil || f.sig == sigSkipsStart {
+	if f == nil || f.sig == sigSkipsStart || preStartOnly(f) {
 		return nil
 	}
 	return &finding{sig: sigGap, msg: f.msg + "\n(the fork's first new head was not higher than synced+1, so the statement admits this head sequence; the syncers detect a reorg only when a head at exactly synced+1 is shown and that Sync call gets as far as the rollback - the same happens when the head at synced+1 was shown but its Sync call failed. Underlying discrepancy class: " + f.sig + ")"}
@@ -366,7 +383,7 @@ func replayC15(rp c15Replay) *finding {
 		where := fmt.Sprintf("step %d of %d (%s, %s): ", i+1, len(rp.Steps), st.Head, cls)
 		switch cls {
 		case "admitted":
-			if o.finding != nil {
+			if o.finding != nil && !preStartOnly(o.finding) {
 				last = &finding{sig: o.finding.sig, msg: where + o.finding.msg}
 				if o.finding.sig != sigSkipsStart {
 					return last
@@ -509,7 +526,7 @@ func runC15(c *report.Ctx) {
 	}
 	reported := map[string]bool{}
 	done, mine := 0, 0
-	var probeSample *c15Replay
+	var probeSample, preStartSample *c15Replay
 	errSampled := false
 	for wi, w := range work {
 		if wi%c.NShards != c.Shard {
@@ -571,6 +588,16 @@ func runC15(c *report.Ctx) {
 				case "admitted":
 					c.Stats.Class(string(w.kind) + ":" + o.effect)
 					s2 := false
+					if preStartOnly(o.finding) {
+						probe(string(w.kind)+":pre-start-event-stored-after-rollback-below-start", true)
+						if preStartSample == nil {
+							rp := u.rp
+							rp.Steps = append(decodeSteps(path), step)
+							rp.Note = "informational probe (event emitted before the configured start block): " + o.finding.msg
+							preStartSample = &rp
+						}
+						o.finding = nil
+					}
 					if o.finding != nil {
 						if o.finding.sig == sigSkipsStart {
 							s2 = true
@@ -594,7 +621,7 @@ func runC15(c *report.Ctx) {
 				case "gap":
 					gaps = append(gaps, gapCase{h, o})
 				default: // excluded-deep: informational probe
-					viol := o.finding != nil && o.finding.sig != sigSkipsStart
+					viol := o.finding != nil && o.finding.sig != sigSkipsStart && !preStartOnly(o.finding)
 					probe(string(w.kind)+":"+cls, viol)
 				}
 			}
@@ -604,7 +631,7 @@ func runC15(c *report.Ctx) {
 				step := c15Step{Head: u.t.label[g.h]}
 				// without an earlier head of the new branch this is the class the statement
 				// excludes (first new head past synced+1): informational
-				viol := g.o.finding != nil && g.o.finding.sig != sigSkipsStart
+				viol := g.o.finding != nil && g.o.finding.sig != sigSkipsStart && !preStartOnly(g.o.finding)
 				probe(string(w.kind)+":excluded-gap", viol)
 				if viol && probeSample == nil {
 					rp := u.rp
@@ -671,6 +698,9 @@ func runC15(c *report.Ctx) {
 	if probeSample != nil {
 		c.Stats.Sample(probeSample)
 	}
+	if preStartSample != nil {
+		c.Stats.Sample(preStartSample)
+	}
 }
 
 // faultSteps enumerates every single fault inside Sync(h) from state s.
@@ -699,6 +729,9 @@ func (u *c15Unit) faultSteps(c *report.Ctx, s *c15State, h fakechain.BlockID, cl
 		}
 		c.Stats.Class(fmt.Sprintf("%s:fault:%s:%s:%s", u.t.kind, f.Type, how, o.effect))
 		s2 := false
+		if preStartOnly(o.finding) {
+			o.finding = nil
+		}
 		if o.finding != nil {
 			if o.finding.sig == sigSkipsStart {
 				s2 = true
